@@ -8,6 +8,7 @@ for d in sorted(glob.glob('/verif/seeded/*')):
     det=r.get('detected',{})
     status=', '.join('%s %s'%(k,'caught' if v.get('exit')==1 else ('MISSED' if v.get('exit')==0 else 'exit %s'%v.get('exit'))) for k,v in sorted(det.items())) or 'not run'
     if r.get('first_attempt')=='missed': status+=' (missed by the first version of the check)'
+    if r.get('obsolete'): status+=' (obsolete: '+r['obsolete']+')'
     def clean(x): return re.sub(r'\s+',' ',x).replace('|','/')
     rows.append('| %s | %s | %s | %s | %s |'%(os.path.basename(d),m['property'],clean(m['summary'])[:230],clean(m['needs'])[:200],status))
     if r.get('notes'): rows.append('| | | *%s* | | |'%clean(r['notes']))
